@@ -48,7 +48,7 @@ const (
 
 var kindNames = []string{"genuine", "flip-last", "flip-random", "truncate", "extend", "crlf", "junk-insert",
 	"std-alphabet", "padding", "other-key", "second-seal", "random", "decoded-edit", "length-boundary", "trailing-bits",
-	"encoding", "cookie-encoding", "cookie-syntax"}
+	"encoding", "cookie-encoding", "cookie-syntax", "instances"}
 
 // ---- values -------------------------------------------------------------------------------------
 
@@ -154,8 +154,9 @@ func differ(v value) value {
 // ---- world ----------------------------------------------------------------------------------------
 
 type world struct {
-	ciphers [3]*aead.MiscreantCipher // index = key id (1, 2)
-	stores  [3]*sessions.CookieStore
+	ciphers [3]aead.Cipher // index = key id (1, 2)
+	stores  [3]sessions.SessionStore
+	insts   []instance
 	defs    map[string]string // shared Gallina definitions: name -> (key, text, vid)
 	nbase   int
 }
@@ -166,31 +167,37 @@ func newWorld() *world {
 		if sec == nil {
 			continue
 		}
-		ci, err := aead.NewMiscreantCipher(sec)
-		c.Must(err)
+		var ci aead.Cipher
+		if mc, err := aead.NewMiscreantCipher(sec); sutOK("aead.NewMiscreantCipher(32-byte secret)", err) {
+			ci = mc
+		} else {
+			ci = brokenCipher{err}
+		}
 		w.ciphers[i] = ci
 		st, err := sessions.NewCookieStore("_sso_proxy", func(cs *sessions.CookieStore) error {
 			cs.CookieCipher = ci
 			return nil
 		})
-		c.Must(err)
-		w.stores[i] = st
+		if sutOK("sessions.NewCookieStore", err) {
+			w.stores[i] = st
+		}
 	}
 	return w
 }
 
 func (w *world) seal(k int, v value) string {
 	s, err := w.ciphers[k].Marshal(v.iface())
-	c.Must(err)
+	sutOK("MiscreantCipher.Marshal", err)
 	return s
 }
 
 type gen struct {
-	key  int
-	text string
-	vid  int
-	val  value
-	name string // Gallina name of the shared definition (key, text, vid)
+	key   int
+	text  string
+	vid   int
+	val   value
+	name  string // Gallina name of the shared definition (key, text, vid)
+	label string // which instance sealed it ("" = the driver's directly built cipher of that key)
 }
 
 func cookieSafe(s string) bool {
@@ -238,10 +245,26 @@ func same(i int) probe                      { return probe{gen: i} }
 
 // observe runs the real Unmarshal (and LoadSession) and builds the case.
 func (w *world) observe(kind int, gs []gen, pk int, p probe) xcase {
+	return w.observeAt(kind, gs, opener{key: pk, ci: w.ciphers[pk], st: w.stores[pk], cookie: "_sso_proxy", label: "direct"}, p)
+}
+
+// opener is a place a string can be presented to: a cipher (and session store) of one service
+// instance. key is the id of the SECRET the instance was configured with: two instances configured
+// with the same secret are the same key as far as the property is concerned.
+type opener struct {
+	key    int
+	ci     aead.Cipher
+	st     sessions.SessionStore // nil: no cookie path
+	cookie string
+	label  string
+}
+
+func (w *world) observeAt(kind int, gs []gen, op opener, p probe) xcase {
+	pk := op.key
 	s := p.apply(gs)
 	target := gs[0].val
 	got := target.fresh()
-	err := w.ciphers[pk].Unmarshal(s, got)
+	err := op.ci.Unmarshal(s, got)
 	obs := "None"
 	var obsJ interface{} = "error"
 	if err == nil {
@@ -256,10 +279,10 @@ func (w *world) observe(kind int, gs []gen, pk int, p probe) xcase {
 		obsJ = vid
 	}
 	store := 0
-	if target.sess != nil && cookieSafe(s) {
+	if target.sess != nil && cookieSafe(s) && op.st != nil {
 		req := httptest.NewRequest("GET", "http://app.example.test/", nil)
-		req.Header.Set("Cookie", "_sso_proxy="+s)
-		sess, lerr := w.stores[pk].LoadSession(req)
+		req.Header.Set("Cookie", op.cookie+"="+s)
+		sess, lerr := op.st.LoadSession(req)
 		switch {
 		case lerr == sessions.ErrInvalidSession && sess == nil:
 			store = 1
@@ -285,6 +308,7 @@ func (w *world) observe(kind int, gs []gen, pk int, p probe) xcase {
 	coq := fmt.Sprintf("CSeal %d %s %d %s %s %d", kind, c.List(parts), pk, p.coq(), obs, store)
 	js := map[string]interface{}{"case": "seal", "kind": kindNames[kind], "key": pk, "genuine_len": len(gs[0].text),
 		"genuine_key": gs[0].key, "presented": fmt.Sprintf("%q", clip(s)), "unmarshal": obsJ, "load_session": store,
+		"opened_at": op.label, "sealed_at": gs[0].label,
 		"value_type": map[bool]string{true: "SessionState", false: "StateParameter"}[target.sess != nil]}
 	return xcase{Case: c.Case{Coq: coq, JSON: js}, needs: needs}
 }
@@ -658,6 +682,9 @@ func main() {
 	for _, b := range fixed {
 		w.encodingCases(r, b, true, emit)
 	}
+	// key identity across instances: the full (sealed at, opened at) matrix on a session and a state value
+	w.instanceCases(r, fixed[0].v, true, emit)
+	w.instanceCases(r, fixed[1].v, true, emit)
 	w.longRuns(r, a.Tier, emit)
 	// values by inflated JSON size; open - mutate - reopen on both stores
 	w.sizeCases(r, a.Tier, emit)
@@ -685,6 +712,9 @@ func main() {
 		if r.Chance(0.5) {
 			w.encodingCases(r, b, false, emit)
 		}
+		if r.Chance(0.25) {
+			w.instanceCases(r, b.v, false, emit)
+		}
 	}
 	for i := 0; i < a.N-nSeal; i++ {
 		if i%5 == 0 {
@@ -699,6 +729,7 @@ func main() {
 		m := [][2]bool{{false, false}, {false, false}, {true, false}, {true, true}, {false, true}}[r.Intn(5)]
 		emit(decCase(m[0], m[1], s))
 	}
+	cases = append(cases, sutFailures...)
 	c.Must(writeShards(a.Out, "Corr_C02", cases, w.defs, a.Shard))
 	fmt.Printf("cases=%d\n", len(cases))
 }
